@@ -188,7 +188,7 @@ def explore(job):
                 n[0] += 1
                 o = run_isolated(engine, cand, prop, token, '%s-s%d' % (tag, n[0]))
                 return o.get('viol')
-            budget = int(os.environ.get('VERIF_SHRINK_BUDGET', '250'))
+            budget = int(os.environ.get('VERIF_SHRINK_BUDGET', '0')) or getattr(engine, 'SHRINK_BUDGET', 250)
             mcase, mviol = shr.shrink(case, viol, test,
                                       getattr(engine, 'simplify', None), budget)
             # signature is computed from the minimised case
